@@ -28,24 +28,44 @@ pub const NAMES: &[&str] = &["3_1", "4_1", "5_1", "5_2a", "5_2b", "6_1a", "6_1b"
 pub enum Mode { ConeF2, ConeF2Bigraded, ConeF2H, SymKh, Ssi }
 
 #[derive(Clone, Debug, Serialize, Deserialize)]
-pub struct Case { pub name: String, pub mirror: bool, pub reorder: Option<u32>, pub h: bool, pub t: bool, pub reduced: bool, pub mode: Mode, pub threads: u8 }
+pub struct Case { pub name: String, pub mirror: bool, pub reorder: Option<u32>, pub h: bool, pub t: bool, pub reduced: bool, pub mode: Mode, pub threads: u8,
+    /// equivariant Reidemeister I moves (position among the labels as a 16-bit fraction, kind), applied in order
+    #[serde(default)] pub kinks: Vec<(u16, u8)>,
+    /// kinks that would take the diagram beyond this many crossings are skipped (cube of the cone: 2^n vertices)
+    #[serde(default = "default_cap")] pub cap: u8 }
+fn default_cap() -> u8 { 10 }
 
-fn load(c: &Case) -> Result<(InvLink, Dg), String> {
+
+pub struct Loaded { pub l: InvLink, pub dg: Dg, pub rho: BTreeMap<usize, usize>, pub base: usize, pub kinks_on: usize, pub kinks_off: usize }
+
+fn load(c: &Case) -> Result<Loaded, String> {
     let base = InvLink::load(&c.name).map_err(|e| format!("{e}"))?;
     let pd: Vec<[usize; 4]> = base.link().data().iter().map(|x| *x.edges()).collect();
     let mut dg = Dg::from_pd(&pd);
+    let n = dg.labels().len();
+    let mut rho: BTreeMap<usize, usize> = dg.labels().into_iter().map(|e| (e, (n + 1 - e) % n + 1)).collect();
+    let mut bp = 1usize;
+    let (mut on, mut off) = (0, 0);
+    for (pos, kind) in &c.kinks {
+        let labels: Vec<usize> = dg.labels().into_iter().collect();
+        let e = labels[(*pos as usize * labels.len()) >> 16];
+        let onaxis = rho[&e] == e;
+        if dg.n() + if onaxis { 1 } else { 2 } > c.cap as usize { continue }
+        dg = dg.sym_kink(e, *kind, &mut rho, &mut bp)?;
+        if onaxis { on += 1 } else { off += 1 }
+    }
     if let Some(s) = c.reorder { dg = dg.reorder_seeded(s as u64); }
-    let l = InvLink::sinv_knot_from_code(dg.pd().unwrap());
-    if c.mirror { Ok((l.mirror(), dg.mirror_type())) } else { Ok((l, dg)) }
+    let l = if c.kinks.is_empty() { InvLink::sinv_knot_from_code(dg.pd().unwrap()) } else { let r = rho.clone(); InvLink::new(dg.to_link(), move |e| r[&e], Some(bp)) };
+    let (l, dg) = if c.mirror { (l.mirror(), dg.mirror_type()) } else { (l, dg) };
+    Ok(Loaded { l, dg, rho, base: bp, kinks_on: on, kinks_off: off })
 }
 
 /// the oracle: cube of the diagram over F2 at (h,t), the involution on generators, and the cone differentials
 struct Cone { cube: Cube, tau: BTreeMap<isize, Vec<usize>> }
 
-fn build_cone(dg: &Dg, reduced: bool) -> Result<Cone, String> {
-    let n_edges = dg.labels().len();
-    let inv_e = |e: usize| (n_edges + 1 - e) % n_edges + 1;
-    let base = if reduced { Some(1usize) } else { None };
+fn build_cone(dg: &Dg, rho: &BTreeMap<usize, usize>, bp: usize, reduced: bool) -> Result<Cone, String> {
+    let inv_e = |e: usize| rho[&e];
+    let base = if reduced { Some(bp) } else { None };
     let cube = cube(dg, base, 0)?;
     // crossing involution
     let n = dg.n();
@@ -110,27 +130,33 @@ impl Cone {
         let degs = self.cube.degrees();
         let lo = *degs.first().unwrap(); let hi = *degs.last().unwrap() + 1;
         let mut rk: BTreeMap<isize, (usize, usize)> = BTreeMap::new();
-        for i in lo..=hi { let (n, rows) = self.d(i, h, t, q); rk.insert(i, (n, local::rank_mod_sparse(&rows, n, 2))); }
+        for i in lo..=hi { let t0 = std::time::Instant::now(); let (n, rows) = self.d(i, h, t, q); if std::env::var("YV_TIME").is_ok() { eprintln!("  d({i}) {:?} {}x{}", t0.elapsed(), rows.len(), n); } let sets: Vec<Vec<usize>> = rows.iter().map(|r| r.keys().cloned().collect()).collect(); rk.insert(i, (n, local::rank_f2(&sets, n))); }
         (lo..=hi).map(|i| (i, rk[&i].0 - rk[&i].1 - rk.get(&(i - 1)).map(|x| x.1).unwrap_or(0))).filter(|x| x.1 > 0).collect()
     }
 }
 
 fn run_case(c: &Case) -> Chk<Pass> {
-    let (l, dg) = match guard(|| load(c)) { Ok(Ok(v)) => v, Ok(Err(e)) => return discard(format!("load: {e}")), Err(m) => return bad(format!("loading {:?} panicked: {m}", c)) };
+    let ld = match guard(|| load(c)) { Ok(Ok(v)) => v, Ok(Err(e)) => return discard(format!("load: {e}")), Err(m) => return bad(format!("loading {:?} panicked: {m}", c)) };
+    let (l, dg) = (ld.l.clone(), ld.dg.clone());
     let threads = [1usize, 2, 4, 16][c.threads as usize % 4];
     let reduced = c.reduced && !c.t;
     let what = format!("{:?} diagram={:?}", c, dg.x);
     let (hb, tb) = (BigInt::from(c.h as u8), BigInt::from(c.t as u8));
     macro_rules! lib { ($e:expr) => { match with_threads(threads, || guard(|| $e)) { Ok(v) => v, Err(m) => return bad(format!("{what}: library panicked: {m}")) } } }
-    let cone = build_cone(&dg, reduced).map_err(|e| Bad::Fail(format!("harness: {e} for {what}")))?;
-    let mut pass = Pass::new().label(format!("mode:{:?}", c.mode)).label_if(c.mirror, "mirror").label_if(c.reorder.is_some(), "reordered").label_if(reduced, "reduced");
+    let t00 = std::time::Instant::now();
+    let cone = build_cone(&dg, &ld.rho, ld.base, reduced).map_err(|e| Bad::Fail(format!("harness: {e} for {what}")))?;
+    if std::env::var("YV_TIME").is_ok() { eprintln!("build_cone {:?} gens {}", t00.elapsed(), cone.cube.total_gens()); }
+    let mut pass = Pass::new().label(format!("mode:{:?}", c.mode)).label_if(c.mirror, "mirror").label_if(c.reorder.is_some(), "reordered").label_if(reduced, "reduced")
+        .label_if(ld.kinks_on > 0, "kink-on-axis").label_if(ld.kinks_off > 0, "kink-pair-off-axis").label(format!("crossings:{}", dg.n()));
     let f2 = |b: bool| FF2::from(b as i64);
+    let kinked = ld.kinks_on + ld.kinks_off > 0;
     match c.mode {
         Mode::ConeF2 | Mode::ConeF2Bigraded => {
             let (h, t) = if c.mode == Mode::ConeF2Bigraded { (false, false) } else { (c.h, c.t) };
             let (hb, tb) = (BigInt::from(h as u8), BigInt::from(t as u8));
             cone.check_equivariance(&hb, &tb).map_err(|e| Bad::Fail(format!("harness: {e} for {what}")))?;
             // d.d = 0 for the library complex, and its homology
+            let t0 = std::time::Instant::now();
             let (dd_ok, lib_dims): (Result<(), String>, BTreeMap<isize, usize>) = lib!({
                 let cx = KhIComplex::<FF2>::new(&l, &f2(h), &f2(t), reduced);
                 let mut ok = Ok(());
@@ -138,8 +164,11 @@ fn run_case(c: &Case) -> Chk<Pass> {
                 let hm = KhIHomology::from(&cx);
                 (ok, hm.h_range().map(|i| (i, hm[i].rank())).filter(|x| x.1 > 0).collect())
             });
+            if std::env::var("YV_TIME").is_ok() { eprintln!("library {:?}", t0.elapsed()); }
             if let Err(e) = dd_ok { return bad(format!("{what}: involutive complex is not a complex: {e}")) }
+            let t0 = std::time::Instant::now();
             let want = cone.dims(&hb, &tb, None);
+            if std::env::var("YV_TIME").is_ok() { eprintln!("cone.dims {:?}", t0.elapsed()); }
             ensure!(lib_dims == want, "{what}: involutive homology dimensions per degree {:?} differ from the cone of 1 + tau on the cube {:?}", lib_dims, want);
             if c.mode == Mode::ConeF2Bigraded {
                 let lb: BTreeMap<(isize, isize), usize> = lib!({ let g = KhIHomology::<FF2>::new(&l, &f2(false), &f2(false), reduced).into_bigraded();
@@ -148,7 +177,7 @@ fn run_case(c: &Case) -> Chk<Pass> {
                 for q in cone.cube.q_values() { for (i, d) in cone.dims(&hb, &tb, Some(q)) { wb.insert((i, q), d); } }
                 ensure!(lb == wb, "{what}: bigraded involutive homology {:?} differs from the cone {:?}", lb, wb);
             }
-            pass = pass.nt((h, t) != (false, false) || c.mirror || c.reorder.is_some());
+            pass = pass.nt((h, t) != (false, false) || c.mirror || c.reorder.is_some() || kinked);
         }
         Mode::ConeF2H => {
             // over F2[H]: rank = dim at H = 1; rank + #tors_i + #tors_{i+1} = dim at H = 0
@@ -174,7 +203,7 @@ fn run_case(c: &Case) -> Chk<Pass> {
             let want: BTreeMap<isize, usize> = dims.into_iter().filter(|x| x.1 > 0).collect();
             ensure!(a == b, "{what}: symmetric build gives {:?}, ordinary Khovanov homology {:?}", a, b);
             ensure!(a == want, "{what}: symmetric build gives {:?}, the cube {:?}", a, want);
-            pass = pass.nt(c.h || c.t || c.mirror);
+            pass = pass.nt(c.h || c.t || c.mirror || kinked);
         }
         Mode::Ssi => {
             let hh = Poly::<'H', FF2>::variable();
@@ -182,7 +211,7 @@ fn run_case(c: &Case) -> Chk<Pass> {
             ensure!(s0 <= s1 && (s1 - s0) % 2 == 0, "{what}: ssi = ({s0},{s1}) violates s0 <= s1, s0 = s1 mod 2");
             // crossing order independence: compare with the table order
             let c0 = Case { reorder: None, ..c.clone() };
-            let (l0, _) = load(&c0).map_err(Bad::Fail)?;
+            let l0 = load(&c0).map_err(Bad::Fail)?.l;
             let (t0, t1) = lib!(ssi_invariants(&l0, &hh, reduced));
             ensure!((s0, s1) == (t0, t1), "{what}: ssi = ({s0},{s1}) but ({t0},{t1}) with the crossings in table order");
             let lm = l.mirror();
@@ -190,7 +219,7 @@ fn run_case(c: &Case) -> Chk<Pass> {
             ensure!((m0, m1) == (-s1, -s0), "{what}: ssi(mirror) = ({m0},{m1}), expected ({},{})", -s1, -s0);
             let (u0, u1) = lib!(ssi_invariants(&l, &hh, !reduced));
             ensure!(u0 <= u1 && (u1 - u0) % 2 == 0, "{what}: ssi ({}) = ({u0},{u1})", if reduced { "unreduced" } else { "reduced" });
-            pass = pass.nt(c.reorder.is_some() || c.mirror);
+            pass = pass.nt(c.reorder.is_some() || c.mirror || kinked);
         }
     }
     Ok(pass)
@@ -200,18 +229,20 @@ impl Prop for C19 {
     type Case = Case;
     const ID: &'static str = "C19";
     fn rule() -> String {
-        "case = (one of the 23 built-in strongly invertible diagrams, optionally mirrored, optionally with its crossings listed in a generated order (same symmetric numbering), (h,t) in F2^2 or h = H over F2[H], reduced (t = 0), threads, mode). \
-         ConeF2 / ConeF2Bigraded: KhIComplex over F2 satisfies d.d = 0 and its homology dimensions per degree (per bidegree for h = t = 0) equal those of the harness's own cone d(Bx) = B dx + Q(x + tau x), d(Qx) = Q dx on its own cube, with tau induced by the edge involution e -> (n+1-e) mod n + 1 (tau d = d tau is checked in the oracle); \
+        "case = (one of the 23 built-in strongly invertible diagrams, optionally changed by up to 3 generated equivariant Reidemeister I moves (a kink on an on-axis edge, or a kink on an off-axis edge together with its image kink; explicit edge involution passed to InvLink::new; at most 10 crossings quick, 11 thorough), optionally mirrored, optionally with its crossings listed in a generated order (same symmetric numbering), (h,t) in F2^2 or h = H over F2[H], reduced (t = 0), threads, mode). \
+         ConeF2 / ConeF2Bigraded: KhIComplex over F2 satisfies d.d = 0 and its homology dimensions per degree (per bidegree for h = t = 0) equal those of the harness's own cone d(Bx) = B dx + Q(x + tau x), d(Qx) = Q dx on its own cube, with tau induced by the edge involution (e -> (n+1-e) mod n + 1 on the table diagrams, extended over the kinks; tau d = d tau is checked in the oracle); \
          ConeF2H: over F2[H], rank = cone dimension at H = 1 and rank + #torsion(i) + #torsion(i+1) = cone dimension at H = 0; \
          SymKh: SymTngBuilder::build_kh_complex homology == KhComplex of the underlying knot == the cube; \
          Ssi: ssi_invariants(H over F2[H]) independent of the crossing order, s0 <= s1, s0 = s1 mod 2, mirror gives (-s1,-s0). \
-         non-trivial = (h,t) != (0,0), or mirrored, or reordered (ConeF2H: always)".into()
+         non-trivial = (h,t) != (0,0), or mirrored, or reordered, or kinked (ConeF2H: always)".into()
     }
-    fn assumptions() -> Vec<String> { vec!["new strongly invertible diagrams are obtained only by reordering and mirroring the built-in table (symmetric kink insertion is not implemented); exponents of H-torsion are not compared".into()] }
-    fn strategy(_tier: Tier) -> BoxedStrategy<Case> {
+    fn assumptions() -> Vec<String> { vec!["new strongly invertible diagrams are obtained from the built-in table by equivariant Reidemeister I moves, reordering and mirroring only (no equivariant R2/R3); invariance of the ssi pair under the kinks is not asserted (the property does not state it); exponents of H-torsion are not compared".into()] }
+    fn strategy(tier: Tier) -> BoxedStrategy<Case> {
+        let cap: u8 = tier.pick(10, 11);
         let mode = prop_oneof![4 => Just(Mode::ConeF2), 2 => Just(Mode::ConeF2Bigraded), 2 => Just(Mode::ConeF2H), 2 => Just(Mode::SymKh), 2 => Just(Mode::Ssi)];
-        (prop::sample::select(NAMES.to_vec()), any::<bool>(), prop::option::weighted(0.6, any::<u32>()), any::<bool>(), any::<bool>(), any::<bool>(), mode, any::<u8>())
-            .prop_map(|(name, mirror, reorder, h, t, reduced, mode, threads)| Case { name: name.to_string(), mirror, reorder, h, t, reduced, mode, threads }).boxed()
+        let kinks = prop_oneof![2 => Just(vec![]), 3 => prop::collection::vec((any::<u16>(), 0u8..4), 1..=3)];
+        (prop::sample::select(NAMES.to_vec()), any::<bool>(), prop::option::weighted(0.6, any::<u32>()), any::<bool>(), any::<bool>(), any::<bool>(), mode, any::<u8>(), kinks)
+            .prop_map(move |(name, mirror, reorder, h, t, reduced, mode, threads, kinks)| Case { name: name.to_string(), mirror, reorder, h, t, reduced, mode, threads, kinks, cap }).boxed()
     }
     fn cases(tier: Tier) -> u32 { tier.pick(1_500, 20_000) }
     fn shards(_: Tier) -> usize { 8 }
